@@ -27,3 +27,12 @@ pub assume_specification [ <i32 as TryFrom<u32>>::try_from ](x: u32) -> (r: Resu
         x <= 0x7fff_ffff ==> r == Ok::<i32, <i32 as TryFrom<u32>>::Error>(x as i32),
         x > 0x7fff_ffff ==> r.is_err(),
 ;
+
+/// Option::filter (core): keeps the value iff the predicate returns true on it
+pub assume_specification<T, P: FnOnce(&T) -> bool> [ Option::<T>::filter ](o: Option<T>, predicate: P) -> (r: Option<T>)
+    requires o.is_some() ==> predicate.requires((&o.unwrap(),)),
+    ensures
+        o.is_none() ==> r.is_none(),
+        o.is_some() && predicate.ensures((&o.unwrap(),), true) ==> r == o,
+        o.is_some() && predicate.ensures((&o.unwrap(),), false) ==> r.is_none(),
+;
